@@ -85,7 +85,11 @@ def run(program, thunk, max_paths=48, sticky=False, stubs=None):
         if stubs:
             it.stubs.update(stubs)
 
-    return explore(program, thunk, max_paths=max_paths, configure=conf)
+    paths = explore(program, thunk, max_paths=max_paths, configure=conf)
+    for p in paths:
+        if p.outcome == "raise" and getattr(p.value, "exc_name", None) in ACCIDENTAL:
+            SUSPICIOUS.append((getattr(p.value, "site", ""), p.value.exc_name, getattr(p.value, "msg", ""), path_tag(p), bool(getattr(p.value, "definite_bug", False))))
+    return paths
 
 
 def grad_dim(it, modv):
@@ -114,6 +118,13 @@ class DefiniteBug(Exception):
         super().__init__(str(exc))
         self.exc = exc
         self.site = exc.site
+
+
+# Paths that end in an error no caller can have asked for (the analysed code indexes past the end, reads a missing key or
+# attribute, calls with the wrong arity, divides by zero).  `run()` collects them for every evaluation of every rule;
+# core reports them, so that a rule which only looks at the returning paths cannot pass over them.
+ACCIDENTAL = ("IndexError", "KeyError", "AttributeError", "TypeError", "ZeroDivisionError", "UnboundLocalError", "NameError")
+SUSPICIOUS = []
 
 
 def returning(paths, what=""):
